@@ -92,6 +92,26 @@ pub fn uni_cfg() -> Cfg {
     }
 }
 
+/// literals that are regex meta-characters (quoting when a piece is re-serialised for the automata engine)
+pub fn meta_cfg() -> Cfg {
+    Cfg {
+        leaves: vec![Lit('.'), Lit('$'), Lit('{'), Lit('#'), Lit('|'), Lit('a'), Any, Assert(A::WordB), Backref(1), Lit('\\'), Lit(')'), Lit('[')],
+        unary: vec![
+            |c| Some(Group(bx(c))),
+            |c| Some(Atomic(bx(c))),
+            |c| Some(Look(bx(c), false, false)),
+            |c| Some(Look(bx(c), true, true)),
+            |c| rep(c, 0, Some(1), Q::Greedy),
+            |c| rep(c, 1, None, Q::Greedy),
+            |c| rep(c, 2, Some(2), Q::Lazy),
+        ],
+        ternary_concat: true,
+        cond: false,
+    }
+}
+
+pub const META_SIGMA: [char; 6] = ['.', '$', '{', '#', 'a', '|'];
+
 /// conditional leaf set (C15)
 pub fn cond_cfg() -> Cfg {
     let mut unary = core_unary();
@@ -232,6 +252,10 @@ pub fn trees(cfg: &Cfg, n: usize, memo: &mut HashMap<usize, Vec<Node>>) -> Vec<N
                                 }
                                 if cfg.ternary_concat && ![a, b, c].iter().any(|t| matches!(t, Concat(_)) || **t == Empty) {
                                     out.push(Concat(vec![a.clone(), b.clone(), c.clone()]));
+                                }
+                                // three-way alternations (chained splits in the compiler); leaves only, to bound the growth
+                                if cfg.ternary_concat && i == 1 && j == 1 && k == 1 && a != b && b != c {
+                                    out.push(Alt(vec![a.clone(), b.clone(), c.clone()]));
                                 }
                             }
                         }
